@@ -137,6 +137,11 @@ class ObjView:
     def isa(self, *classes):
         return self._e.isinstance_term(self.v, classes)
 
+    def as_(self, *classes):
+        """the same object viewed as an instance of the given classes (use under a guard isa(...))"""
+        keep = tuple(c for c in self.v.classes if any(self._e._is_sub(c, b) for b in classes)) or tuple(classes)
+        return ObjView(self._e, self._st, VObj(self.v.t, keep))
+
     def __getattr__(self, name):
         val = self._e.get_field(self._st, self.v, name, spec_mode=True)
         return view(self._e, self._st, val)
